@@ -61,6 +61,8 @@ var probes = map[string]bool{
 	"candidate.startElection":       true,
 	"candidate.onVoteResult":        true,
 	"connPool.getConn":              true,
+	"storage.removeGTE":             true,
+	"Raft.setCommitIndex":           true,
 	"connPool.returnConn":           true,
 	"replication.onAppendEntriesResp": true,
 }
